@@ -188,7 +188,9 @@ Definition emb (t : table Z value) : list (value * value) :=
   map (fun kv => (VInt (fst kv), snd kv)) (t_iter Z value t).
 
 Section IntTable.
-  Variables (m r seed : N).
+  Variable hd : list N -> N.
+  Variable fs : nat.
+  Hypothesis Hfs : fh_normalising fs = true.
   Variable hash : Z -> N.
 
   Definition entries_wf (t : table Z value) : Prop :=
@@ -216,7 +218,7 @@ Section IntTable.
     exists t', t_assign_from Z value Z.eqb hash table_swap table_primes table_load_num table_load_den t = Some t' /\
       v_cmp true (VMap KTable (emb t')) (VMap KTable (emb t)) = Some 0%Z /\
       v_cmp true (VMap KTable (emb t)) (VMap KTable (emb t')) = Some 0%Z /\
-      v_hash m r seed true (VMap KTable (emb t')) = v_hash m r seed true (VMap KTable (emb t)) /\
+      v_hash hd fs (VMap KTable (emb t')) = v_hash hd fs (VMap KTable (emb t)) /\
       length (emb t') = length (emb t).
   Proof.
     intros Hi W.
@@ -224,8 +226,8 @@ Section IntTable.
     exists t'. split; [exact Ha|].
     assert (Pe : Permutation (emb t) (emb t')) by (unfold emb; apply Permutation_map; apply Permutation_sym; exact P).
     pose proof (emb_wf t Hi W) as Wt.
-    destruct (map_perm_eq m r seed true KTable KTable (emb t) (emb t') eq_refl Wt Pe) as [Wt' [C1 H1]].
-    destruct (map_perm_eq m r seed true KTable KTable (emb t') (emb t) eq_refl Wt' (Permutation_sym Pe)) as [_ [C2 _]].
+    destruct (map_perm_eq hd true fs Hfs KTable KTable (emb t) (emb t') eq_refl Wt Pe) as [Wt' [C1 H1]].
+    destruct (map_perm_eq hd true fs Hfs KTable KTable (emb t') (emb t) eq_refl Wt' (Permutation_sym Pe)) as [_ [C2 _]].
     split; [exact C2|]. split; [exact C1|]. split; [symmetry; exact H1|].
     apply Permutation_length. apply Permutation_sym. exact Pe.
   Qed.
@@ -253,7 +255,9 @@ Qed.
    mem / resize / copy from the empty table keeps the invariant and holds exactly the bindings of the
    finite map spec_run ops []) the hypothesis `tinv` disappears. *)
 Section Histories.
-  Variables (m r seed : N).
+  Variable hd : list N -> N.
+  Variable fs : nat.
+  Hypothesis Hfs : fh_normalising fs = true.
 
   Lemma T_run_tinv (hash : Z -> N) (ops : list (op Z value)) : tinv Z value hash (T_run Z value Z.eqb hash ops).
   Proof. destruct (T_refines_map Z value Z.eqb hash Z.eqb_eq ops (TSelfCopy Z value)) as [[Hp _] _]. exact Hp. Qed.
@@ -265,9 +269,9 @@ Section Histories.
     exists t', t_assign_from Z value Z.eqb hash table_swap table_primes table_load_num table_load_den t = Some t' /\
       v_cmp true (VMap KTable (emb t')) (VMap KTable (emb t)) = Some 0%Z /\
       v_cmp true (VMap KTable (emb t)) (VMap KTable (emb t')) = Some 0%Z /\
-      v_hash m r seed true (VMap KTable (emb t')) = v_hash m r seed true (VMap KTable (emb t)) /\
+      v_hash hd fs (VMap KTable (emb t')) = v_hash hd fs (VMap KTable (emb t)) /\
       length (emb t') = length (emb t).
-  Proof. intros t W. apply int_table_copy_eq_hash; [apply T_run_tinv|exact W]. Qed.
+  Proof. intros t W. apply int_table_copy_eq_hash; [exact Hfs|apply T_run_tinv|exact W]. Qed.
 
   (* two histories — different insertion orders, removals, reserves, copies, even different hash
      functions placing the keys — that leave the same bindings leave tables that are eq in both
@@ -279,7 +283,7 @@ Section Histories.
     entries_wf t1 ->
     v_cmp true (VMap KTable (emb t1)) (VMap KTable (emb t2)) = Some 0%Z /\
     v_cmp true (VMap KTable (emb t2)) (VMap KTable (emb t1)) = Some 0%Z /\
-    v_hash m r seed true (VMap KTable (emb t1)) = v_hash m r seed true (VMap KTable (emb t2)).
+    v_hash hd fs (VMap KTable (emb t1)) = v_hash hd fs (VMap KTable (emb t2)).
   Proof.
     intros t1 t2 P W.
     destruct (T_len_iter Z value Z.eqb hash1 Z.eqb_eq ops1) as [_ [_ [P1 _]]].
@@ -289,8 +293,8 @@ Section Histories.
     { eapply perm_trans; [exact P1|]. eapply perm_trans; [exact P|]. apply Permutation_sym. exact P2. }
     assert (Pe : Permutation (emb t1) (emb t2)) by (unfold emb; apply Permutation_map; exact Pt).
     pose proof (emb_wf hash1 t1 (T_run_tinv hash1 ops1) W) as W1.
-    destruct (map_perm_eq m r seed true KTable KTable (emb t1) (emb t2) eq_refl W1 Pe) as [W2 [C1 H1]].
-    destruct (map_perm_eq m r seed true KTable KTable (emb t2) (emb t1) eq_refl W2 (Permutation_sym Pe)) as [_ [C2 _]].
+    destruct (map_perm_eq hd true fs Hfs KTable KTable (emb t1) (emb t2) eq_refl W1 Pe) as [W2 [C1 H1]].
+    destruct (map_perm_eq hd true fs Hfs KTable KTable (emb t2) (emb t1) eq_refl W2 (Permutation_sym Pe)) as [_ [C2 _]].
     auto.
   Qed.
 End Histories.
